@@ -11,7 +11,10 @@ use tokio::select;
 use tracing::{info, warn};
 
 use super::manifest::*;
-use super::{DeleteVector, DiskRowset, MANIFEST_FILE_NAME, StorageOptions, StorageResult};
+use super::{
+    DeleteVector, DiskRowset, MANIFEST_FILE_NAME, StorageOptions, StorageResult,
+    TracedStorageError,
+};
 
 /// The operations sent to the version manager. Compared with manifest entries, operations
 /// like `AddRowSet` needs to be associated with a `DiskRowSet` struct.
@@ -150,6 +153,11 @@ pub struct VersionManagerInner {
 
     /// Current epoch number.
     epoch: u64,
+
+    /// Tables dropped since this engine was opened. A transaction that started before the
+    /// `DROP TABLE` must not commit RowSets or DVs into them afterwards: the DROP built its
+    /// changeset from a snapshot that cannot contain them.
+    dropped_tables: HashSet<u32>,
 }
 
 /// Manages the state history of the storage engine and vacuum the stale files on disk.
@@ -283,6 +291,17 @@ impl VersionManager {
             // manifest.
             let mut inner = self.inner.lock();
 
+            for op in &ops {
+                let table_id = match op {
+                    EpochOp::AddRowSet((entry, _)) => entry.table_id.table_id,
+                    EpochOp::AddDV((entry, _)) => entry.table_id.table_id,
+                    _ => continue,
+                };
+                if inner.dropped_tables.contains(&table_id) {
+                    return Err(TracedStorageError::not_found("table", table_id));
+                }
+            }
+
             // Save the current epoch for later integrity check.
             current_epoch = inner.epoch;
 
@@ -359,6 +378,12 @@ impl VersionManager {
             .insert(epoch, rowset_deletion_to_apply);
 
         Ok(epoch)
+    }
+
+    /// `DROP TABLE` announces the table before it pins the snapshot it builds its changeset from:
+    /// from here on `commit_changes` refuses RowSets and DVs for it.
+    pub fn mark_table_dropped(&self, table_id: u32) {
+        self.inner.lock().dropped_tables.insert(table_id);
     }
 
     /// Pin a snapshot of one epoch, so that all files at this epoch won't be deleted.
